@@ -297,6 +297,7 @@ def run(ctx):
                                                  case=dict(version=ver, op=op, raw=True)))
                 except Exception as e:  # noqa
                     res.failures.append(dict(what="raw_response call raised %s" % e, case=dict(version=ver, op=op, raw=True)))
+    interleaving_probe(ctx, res)
     if ctx.model and pending:
         outs = ctx.model.run([p[0] for p in pending])
 
@@ -326,6 +327,52 @@ def run(ctx):
                 "envelope styles rotated (empty Header, undeclared header entry, utf-16 / latin-1 declared encodings, no Header element), all "
                 "calls of an operation in a row on one client; raw_response per operation. distinct = distinct cell")
     return res
+
+
+def interleaving_probe(ctx, res):
+    """one client shared by two threads: while thread A is inside `with client.settings(raw_response=True)`, an ordinary
+    call made by thread B must still return the payload the server sent (the block is thread-local), and A gets the response"""
+    import threading
+    for ver in ("1.1", "1.2"):
+        client = make_client(ver, False)
+        port = "pd"
+        op = "outX"
+        inner, body_v = reply_for(op, VARIANTS[0], "prefixed")
+        Script.content, Script.ctype = envelope(ver, inner, None, "plain")
+        svc = client.bind("svc", port)
+        expected = canon(getattr(svc, op)("x"))
+        a_in, b_done = threading.Event(), threading.Event()
+        box = {}
+
+        def thread_a():
+            try:
+                with client.settings(raw_response=True):
+                    a_in.set()
+                    b_done.wait(10)
+                    box["a"] = getattr(svc, op)("x")
+            except Exception as e:  # noqa
+                box["a_err"] = repr(e)
+                a_in.set()
+
+        def thread_b():
+            a_in.wait(10)
+            try:
+                box["b"] = getattr(svc, op)("x")
+            except Exception as e:  # noqa
+                box["b_err"] = repr(e)
+            b_done.set()
+        ta, tb = threading.Thread(target=thread_a), threading.Thread(target=thread_b)
+        ta.start(); tb.start(); ta.join(20); tb.join(20)
+        res.case(key=(ver, "interleaving"))
+        res.count("interleaving")
+        case = dict(version=ver, op=op, kind="interleaving", schedule="A enters settings(raw_response=True); B calls; A calls; A leaves")
+        if "b_err" in box or "a_err" in box:
+            res.failures.append(dict(what="interleaved calls raised %s" % (box.get("b_err") or box.get("a_err")), case=case))
+        elif hasattr(box.get("b"), "status_code") or canon(box.get("b")) != expected:
+            res.failures.append(dict(what="a call made while ANOTHER thread was inside settings(raw_response=True) did not return the payload the server sent: %r"
+                                          % (box.get("b"),), case=case))
+        elif not hasattr(box.get("a"), "status_code"):
+            res.failures.append(dict(what="the call inside settings(raw_response=True) did not return the response object", case=case))
 
 
 def search(ctx):
